@@ -89,6 +89,18 @@ Theorem C10_nick_caseonly_membership_partial :
 Proof. exact renamed_caseonly. Qed.
 Print Assumptions C10_nick_caseonly_membership_partial.
 
+(* ChannelState.replaceUser itself (the function IrcState.doNick applies to every channel): a rename that differs
+   only in case leaves membership, op, halfop and voice of every nick unchanged, for every channel state.  (Swapping
+   s.remove(oldNick)/s.add(newNick) in replaceUser falsifies this: Lemmas.swapped_order_loses.) *)
+Theorem C10_nick_caseonly_keeps_membership :
+  forall o n c x, feq o n = true ->
+  iset_mem x (c_users (replaceUser o n c)) = iset_mem x (c_users c)
+  /\ iset_mem x (c_ops (replaceUser o n c)) = iset_mem x (c_ops c)
+  /\ iset_mem x (c_halfops (replaceUser o n c)) = iset_mem x (c_halfops c)
+  /\ iset_mem x (c_voices (replaceUser o n c)) = iset_mem x (c_voices c).
+Proof. exact replaceUser_caseonly. Qed.
+Print Assumptions C10_nick_caseonly_keeps_membership.
+
 (* PART/KICK/QUIT of a user: removeUser answers every membership question as "not u, and was there before" *)
 Theorem C10_remove_user_partial :
   forall u x c,
